@@ -567,7 +567,7 @@ func c06DBFault(r *verifh.Rng) string {
 
 // the scenario of DESIGN section 7 #9, replayed on every run: a failed DEL during Exec leaves the old row
 // in the cache until a retry of the cleaner succeeds.
-var c06StaleScenario = verifh.Section{Cfg: "exp=20000 nf=3000 stale=carve", Ops: []string{
+var c06StaleScenario = verifh.Section{Cfg: "exp=20000 nf=3000 stale=report", Ops: []string{
 	"exec p1,x1 put:1:10:1", "take p1 j=500", "qindex x1 j=0",
 	"exec p1,x1 put:1:11:1 c=1", "take p1 j=500", "qindex x1 j=500",
 	"tick 1 c=1", "take p1", "tick 4 c=0", "take p1", "tick 1 c=0", "take p1 j=1000", "qindex x1 j=1000",
@@ -688,7 +688,7 @@ func c06Gen(r *verifh.Rng) []verifh.Section {
 				ops = append(ops, fmt.Sprintf("tick %d c=%d", nt, c))
 			}
 		}
-		secs = append(secs, verifh.Section{Cfg: fmt.Sprintf("exp=%d nf=%d stale=carve", exp, nf), Ops: ops})
+		secs = append(secs, verifh.Section{Cfg: fmt.Sprintf("exp=%d nf=%d stale=report", exp, nf), Ops: ops})
 	}
 	return secs
 }
